@@ -62,7 +62,16 @@ def pool_sessions(rng, tier, k=2, n_random=50, corpus_n=10, corpus_cap=40, nmax=
     pool = drivers.molecule_pool(rng, tier, corpus_cap=corpus_cap, n_random=n_random, nmax=nmax, corpus_n=corpus_n)
     if specials:
         pool += drivers.special_molecules()
-    return [pipeline_session(name, g, rng, k=k, **kw) for name, g in pool]
+    ss = []
+    for name, g in pool:
+        perms = None
+        if sorted(g.nodes) == list(range(g.number_of_nodes())) and g.number_of_nodes() <= 80:
+            # mixtures: the fragments listed in other orders, next to the random renumberings
+            fo = gen.fragment_order_perms(g, rng, limit=6 if tier == "quick" else 24)       # three fragments: every order
+            if fo:
+                perms = fo + [gen.random_perm(rng, g.number_of_nodes()) for _ in range(max(1, k - 1))]
+        ss.append(pipeline_session(name, g, rng, k=k, perms=perms, plain=len(fo) if perms else 0, **kw))
+    return ss
 
 
 def count_sessions(out, sessions, what):
@@ -92,7 +101,9 @@ def c01(out, tier, rng):
     ss += pool_sessions(rng, tier, k=3, feedback=True, parse_back=True)
     ss += molfile_order_sessions(rng, tier)
     ss += hash_twin_sessions(rng, tier)
-    ss.append(pipeline_session("solvent-box", gen.solvent_box(rng), rng, k=1 if tier == "quick" else 5, parse_back=False, unordered=True))
+    box = gen.solvent_box(rng)
+    ss.append(pipeline_session("solvent-box", box, rng, perms=gen.fragment_order_perms(box, rng, limit=2 if tier == "quick" else 5) + [gen.random_perm(rng, box.number_of_nodes())],
+                               parse_back=False, unordered=True, plain=1))
     count_sessions(out, ss, "c01")
     validate_sessions(out, ss, "C01:")
     out.extra["rule"] = RULE
